@@ -40,7 +40,7 @@ class TooManyPaths(Exception):
 
 
 class Event:
-    __slots__ = ("fn", "bb", "line", "callee", "name", "args", "raw", "result", "target", "idx", "self_ty")
+    __slots__ = ("fn", "bb", "line", "callee", "name", "args", "raw", "result", "target", "idx", "self_ty", "opened")
 
     def __init__(self, fn, bb, line, callee, name, args, raw, result, target, self_ty):
         self.fn = fn
@@ -54,6 +54,7 @@ class Event:
         self.target = target  # Fn object when the callee is a workspace function with a body
         self.idx = -1
         self.self_ty = self_ty
+        self.opened = False   # the callee's paths have been spliced into the path this event belongs to
 
     def __repr__(self):
         return "%s(%s) @%s:%s" % (sym.short(self.name), ", ".join(sym.show(a, 4) for a in self.args), self.fn.file.split("/")[-1], self.line)
